@@ -37,6 +37,9 @@ type EngineError struct{ Msg string }
 
 func (e *EngineError) Error() string { return e.Msg }
 
+// coverReturns (GOCV_COVER_RETURNS=1): one reachability cover per return point, reported as notes (vacuity self-test)
+var coverReturns = os.Getenv("GOCV_COVER_RETURNS") != ""
+
 func engineErr(format string, args ...interface{}) {
 	panic(&EngineError{fmt.Sprintf(format, args...)})
 }
@@ -54,13 +57,13 @@ type FuncVC struct {
 	nopanic bool
 	stack   []*ssa.Function
 	// notes for evidence
-	inlined  map[string]bool
-	havoced  map[string]bool
-	assumed  map[string]bool
-	devirt   map[string]bool
-	specMode int // >0: evaluating Go code inside a spec expression: no obligations
-	axiomsOn bool
-	topFrame *Frame
+	inlined         map[string]bool
+	havoced         map[string]bool
+	assumed         map[string]bool
+	devirt          map[string]bool
+	specMode        int // >0: evaluating Go code inside a spec expression: no obligations
+	axiomsOn        bool
+	topFrame        *Frame
 	maxInlineInstrs int
 	maxInlineDepth  int
 	nameOverride    string
@@ -83,6 +86,7 @@ type FuncVC struct {
 	sideStack       [][]string
 	forallStack     []bool
 	closureDone     map[string]bool
+	nRetCover       int
 	pureEnsDepth    int
 	binderDepth     int // >0 while evaluating under a quantifier: no facts may be emitted (they would mention bound variables)
 }
@@ -111,22 +115,22 @@ type dbgEntry struct {
 }
 
 type Frame struct {
-	fn        *ssa.Function
-	vals      map[ssa.Value]Val
-	depth     int
-	top       bool
-	rets      []retInfo
-	loops     map[*ssa.BasicBlock]*loopInfo
-	edgeCond  map[edge]string
-	edgeState map[edge]*State
-	reach     map[*ssa.BasicBlock]string
-	dbg       map[*ssa.BasicBlock][]dbgEntry
-	curBlock  *ssa.BasicBlock
-	con       *Contract
-	entrySt   *State
-	guard     string
-	cbSpecs   map[string]*CallbackSpec
-	rangeSt   map[ssa.Value]*rangeState
+	fn           *ssa.Function
+	vals         map[ssa.Value]Val
+	depth        int
+	top          bool
+	rets         []retInfo
+	loops        map[*ssa.BasicBlock]*loopInfo
+	edgeCond     map[edge]string
+	edgeState    map[edge]*State
+	reach        map[*ssa.BasicBlock]string
+	dbg          map[*ssa.BasicBlock][]dbgEntry
+	curBlock     *ssa.BasicBlock
+	con          *Contract
+	entrySt      *State
+	guard        string
+	cbSpecs      map[string]*CallbackSpec
+	rangeSt      map[ssa.Value]*rangeState
 	extraNames   map[string]Val
 	extraEnsures []Clause
 }
@@ -661,6 +665,11 @@ func (fv *FuncVC) run(fr *Frame, args []Val, freeVars []Val, st *State, guard st
 		}
 		fr.reach[b] = reach
 		fr.curBlock = b
+		if coverReturns && fr.depth <= 1 && len(b.Instrs) > 0 {
+			// vacuity self-test: is this block reachable under the precondition and the contracts assumed so far?
+			fv.nRetCover++
+			fv.cover(fmt.Sprintf("return@block%d:%s#%d", b.Index, fv.pos(b.Instrs[0].Pos()), fv.nRetCover), reach, "block reachable", fv.pos(b.Instrs[0].Pos()))
+		}
 		if isHeader {
 			cur = fv.loopHeader(fr, b, cur, reach)
 		}
